@@ -9,6 +9,10 @@ from .envctl import MachineryError
 from .seqdriver import ApiAdapter, POLICY, implicit_retry
 
 
+class ProgramInterrupt(BaseException):
+    """A block left the way KeyboardInterrupt / SystemExit leave it: not an Exception, still rolled back."""
+
+
 class ProgramAbort(Exception):
     """Raised by the harness inside a transact block (the body 'raises')."""
 
@@ -201,7 +205,7 @@ class ConcRunner:
                                 self.sched.emit({'ev': 'call', 'c': cid, 'op': 'txend', 'a': {}, 'now': self.clock.tick})
                             depth[0] -= 1
                             self.sched.emit({'ev': 'ret', 'c': cid, 'ret': R('none')})
-                        except ProgramAbort:
+                        except (ProgramAbort, ProgramInterrupt):
                             depth[0] -= 1
                             if depth[0] > 0:
                                 raise                    # unwinds every enclosing block
@@ -295,7 +299,7 @@ class ConcRunner:
                             continue
                         self.sched.emit({'ev': 'call', 'c': cid, 'op': 'txraise', 'a': {}, 'now': self.clock.tick})
                         resume[0] = i
-                        raise ProgramAbort()
+                        raise (ProgramInterrupt() if i % 2 else ProgramAbort())
                     self.sched.yield_point('call', name)
                     if name == 'tick':
                         self.clock.advance(a.get('n', 1))
